@@ -314,6 +314,59 @@ def tiny_inputs_universe(ctx, exe, sc, env, thorough):
                bad == 0, "oracle", "%d" % bad)
 
 
+DENSE_CFGS = {
+    "default": {},
+    "mods": {"mod_full_brace_if": "add", "mod_full_brace_for": "remove", "mod_full_paren_if_bool": "true", "mod_paren_on_return": "add", "mod_remove_extra_semicolon": "true",
+             "mod_infinite_loop": 2, "mod_case_brace": "add", "mod_move_case_break": "true", "mod_move_case_return": "true", "mod_remove_empty_return": "true",
+             "mod_enum_last_comma": "add", "mod_sort_include": "true", "mod_unsigned_int": "add", "mod_add_long_function_closebrace_comment": 1},
+    "nl": {"nl_after_semicolon": "true", "nl_if_brace": "force", "nl_brace_else": "remove", "nl_before_case": "true", "nl_after_case": "true", "nl_create_if_one_liner": "true",
+           "nl_remove_extra_newlines": 2, "code_width": 20, "nl_max": 2, "nl_end_of_file": "force", "nl_end_of_file_min": 1, "nl_start_of_file": "remove",
+           "pp_region_indent_code": "true", "indent_func_def_force_col1": "true"},
+    "align": {"align_assign_span": 2, "align_var_def_span": 2, "align_right_cmt_span": 3, "align_nl_cont": 1, "align_pp_define_span": 2, "align_struct_init_span": 2,
+              "align_typedef_span": 2, "indent_with_tabs": 0, "cmt_width": 20, "cmt_reflow_mode": 2},
+}
+
+
+def tiny_pairs_universe(ctx, exe, sc, env, thorough):
+    """every ordered pair of tiny inputs, joined by a blank or a line break, rotating over six languages and four dense configurations
+    (code-modifying options, newline options, alignment/comment options, defaults).  All of it in the thorough tier, a sixth per quick run."""
+    import itertools
+    cfgp = {k: sc.cfg(None, v) for k, v in DENSE_CFGS.items()}
+    names = list(cfgp)
+    jobs = []
+    n = 0
+    for a, b in itertools.product(TINY, TINY):
+        for sep in (" ", "\n"):
+            n += 1
+            if not thorough and (n + ctx.seed) % 6:
+                continue
+            lang, ext = [("C", ".c"), ("CPP", ".cpp"), ("CS", ".cs"), ("OC", ".m"), ("JAVA", ".java"), ("D", ".d")][n % 6]
+            jobs.append((a + sep + b, lang, ext, names[(n // 6) % 4]))
+
+    def one(j):
+        txt, lang, ext, cn = j
+        p = sc.write(txt.encode("latin1"), ext)
+        try:
+            x = subprocess.run([exe, "-q", "-c", cfgp[cn], "-l", lang, "-f", p], stdout=subprocess.PIPE, stderr=subprocess.PIPE, env=env, timeout=TIMEOUT)
+            r = (x.returncode, x.stdout, x.stderr)
+        except subprocess.TimeoutExpired:
+            r = ("timeout", b"", b"")
+        os.remove(p)
+        return r
+    res = common.pmap(one, jobs)
+    bad = 0
+    for (txt, lang, ext, cn), (rc, out, err) in zip(jobs, res):
+        ctx.case("tiny2:%s:%s:%r" % (cn, lang, txt))
+        why = classify(rc, out, err, True)
+        if why:
+            if ctx.violation("%s [input %r as %s under the `%s` configuration]" % (why, txt, lang, cn),
+                             {"input_latin1": txt, "lang": lang, "options": DENSE_CFGS[cn], "argv": "uncrustify -q -c <config> -l %s -f <input>" % lang},
+                             key={"kind": "tiny-pair", "status": str(rc), "tail": err.decode("latin1")[-60:]}, found_input=True):
+                bad += 1
+    ctx.oblige("fixed universe: ordered pairs of tiny inputs x 4 dense configurations x 6 languages end with a documented status (%d runs)" % len(jobs),
+               bad == 0, "oracle", "%d" % bad)
+
+
 def run(ctx):
     ctx.level = "proof"
     ctx.cov["rule"] = ("one case = one run of the real binary on a mutated corpus input (line/byte truncation, deleted/duplicated line, bracket "
@@ -490,6 +543,7 @@ def run(ctx):
         width_loop_monitor(ctx, exe, sc, pairs, env, thorough)
         no_final_newline_universe(ctx, exe, sc, unc.test_pairs(), env, thorough)
         tiny_inputs_universe(ctx, exe, sc, env, thorough)
+        tiny_pairs_universe(ctx, exe, sc, env, thorough)
         ctx.oblige("exploration: every run ends with a documented status, no signal/sanitizer report/timeout, nothing on stdout when refused (%d runs)"
                    % len(res), bad == 0, "oracle", "%d failures" % bad)
         ctx.sample({"mutation": res[0][0][3], "rc": res[0][1], "lang": res[0][0][2]})
